@@ -34,8 +34,12 @@ def format_cardinality(in_val):
     if isinstance(in_val, (tuple, list)) and len(in_val) == 2 and not in_val[0] and not in_val[1]:
         return None
 
+    # Booleans are integers to Python, but they are no number of entries.
+    def is_int(val):
+        return isinstance(val, int) and not isinstance(val, bool)
+
     # Providing a single integer sets the maximum value in a tuple.
-    if isinstance(in_val, int) and in_val > 0:
+    if is_int(in_val) and in_val > 0:
         return None, in_val
 
     # Integer 2-tuples of the format '(min, max)' are supported to set the cardinality.
@@ -44,8 +48,8 @@ def format_cardinality(in_val):
         v_min = in_val[0]
         v_max = in_val[1]
 
-        min_int = isinstance(v_min, int) and v_min >= 0
-        max_int = isinstance(v_max, int) and v_max >= 0
+        min_int = is_int(v_min) and v_min >= 0
+        max_int = is_int(v_max) and v_max >= 0
 
         if max_int and min_int and v_max >= v_min:
             return v_min, v_max
